@@ -4,6 +4,7 @@ import re as pyre
 import warnings
 
 from common import MachineryError
+from project import OutOfModelRange
 from gops import guarded, CallTimeout
 from project import tname, enc_rat, cfg_proj
 import aops
@@ -159,6 +160,8 @@ def event(fn, args, site=None, feat=None, timeout=30):
         except CallTimeout:
             # a slow machine must not look like a hanging library: one more attempt with four times the budget
             e = guarded(lambda: FUNCS[fn](args), 4 * timeout)
+    except OutOfModelRange:
+        e = {"op": fn, "skip": "numeric-range"}      # (a weight beyond the model's number range: counted, not judged)
     except MachineryError:
         raise
     except CallTimeout:
